@@ -212,9 +212,10 @@ Section ExactMain.
         match ref with
         | Some r => ref_x T A r ft t
         | None =>
-            match oneo with
-            | Some bs => union_x T ex bs ft t
-            | None => go_plain re D T ex ty enum cst sv ik items mni mxi props req ap no false false ft t
+            match anyo, oneo with
+            | None, None => go_plain re D T ex ty enum cst sv ik items mni mxi props req ap no false false ft t
+            | Some bs, None | None, Some bs => union_x T ex bs ft t
+            | Some _, Some _ => true
             end
         end
     end.
@@ -223,8 +224,8 @@ Section ExactMain.
   Proof.
     destruct s as [b|ty fmt enum cst nv sv ik items ai mni mxi uq props req ap mnp mxp allo anyo oneo no ref dflt title];
       [discriminate|].
-    intro Hf. apply frag_obj_inv in Hf. destruct Hf as (nl & k & _ & _ & -> & -> & _ & _).
-    cbn [exact exact_obj Es]. destruct ref; [reflexivity|]. destruct oneo; reflexivity.
+    intro Hf. apply frag_obj_inv in Hf. destruct Hf as (nl & k & _ & _ & -> & _ & _).
+    cbn [exact exact_obj Es]. destruct ref; [reflexivity|]. destruct anyo, oneo; reflexivity.
   Qed.
 
   (* a type of non-nullable shape is not an Option *)
@@ -235,7 +236,14 @@ Section ExactMain.
     destruct s as [b|ty fmt enum cst nv sv ik items ai mni mxi uq props req ap mnp mxp allo anyo oneo no ref dflt title];
       [discriminate|].
     intros Hf Hs Hn. cbn [shape] in Hs.
-    pose proof Hf as Hfi. apply frag_obj_inv in Hfi. destruct Hfi as (nl0 & k0 & _ & -> & -> & -> & _ & ->).
+    pose proof Hf as Hfi. apply frag_obj_inv in Hfi. destruct Hfi as (nl0 & k0 & Hcl0 & -> & -> & Hu0 & ->).
+    destruct anyo as [abs|].
+    { (* a union written with "anyOf": [nullable] answers "maybe" *)
+      exfalso. unfold union_spec in Hu0.
+      destruct k0; try (destruct Hu0 as [_ Hx]; discriminate Hx);
+        destruct Hu0 as [_ [(bs & _ & Hx)|(bs & -> & _ & -> & -> & ->)]]; try discriminate Hx;
+        unfold NFUEL in Hn; cbn [nullable] in Hn; discriminate Hn. }
+    cbn [union_of] in Hs.
     destruct (classify _ _ _ _ _ _ _ _ _ _ _ _ _ _ _ _ _ _ _ _ _ _ _ _) as [[nl k]|] eqn:Hcl; [|contradiction].
     pose proof Hcl as Hcases. apply classify_cases in Hcases.
     destruct Hcases as [(l & tt & -> & -> & Hsp & Hk)|(-> & -> & _ & _ & _ & _ & _ & -> & _ & _ & _ & _ & _ & Hrk)].
@@ -277,7 +285,13 @@ Section ExactMain.
       (destruct s as [b|ty fmt enum cst nv sv ik items ai mni mxi uq props req ap mnp mxp allo anyo oneo no ref dflt title];
         [discriminate|]);
       intros Hf Hs Hn; cbn [shape] in Hs;
-      pose proof Hf as Hfi; apply frag_obj_inv in Hfi; destruct Hfi as (nl0 & k0 & _ & -> & -> & -> & _ & ->);
+      pose proof Hf as Hfi; apply frag_obj_inv in Hfi; destruct Hfi as (nl0 & k0 & Hcl0 & -> & -> & Hu0 & ->);
+      (destruct anyo as [abs|];
+       [ exfalso; unfold union_spec in Hu0;
+         destruct k0; try (destruct Hu0 as [_ Hx]; discriminate Hx);
+           destruct Hu0 as [_ [(bs & _ & Hx)|(bs & -> & _ & -> & -> & ->)]]; try discriminate Hx;
+           cbn [nullable] in Hn; discriminate Hn
+       | cbn [union_of] in Hs ]);
       (destruct (classify _ _ _ _ _ _ _ _ _ _ _ _ _ _ _ _ _ _ _ _ _ _ _ _) as [[nl k]|] eqn:Hcl; [|contradiction]);
       pose proof Hcl as Hcases; apply classify_cases in Hcases;
       (destruct Hcases as [(l & tt & -> & -> & Hsp & Hk)|(-> & -> & _ & _ & _ & _ & _ & -> & _ & _ & _ & _ & _ & Hrk)]).
@@ -392,16 +406,17 @@ Section ExactMain.
 
   Lemma conv_E : forall s, E s.
   Proof.
-    apply schema_ind'.
+    apply schema_ind_u.
     - intros b Hf. discriminate Hf.
-    - intros ty fmt enum cst nv sv ik items ai mni mxi uq props req ap mnp mxp allo anyo oneo no ref dflt title
-             IHitems _ IHprops IHap _ _ IHone _.
+    - intros ty fmt enum cst nv sv ik items ai mni mxi uq props req ap mnp mxp allo oneo no ref dflt title
+             IHitems IHprops IHap IHone0.
+      assert (IHone : OForall (Forall E) oneo) by (exact (proj2 (arms_props E oneo IHone0))).
       intros Hf Hne t Hs ft.
-      pose proof Hf as Hfi. apply frag_obj_inv in Hfi. destruct Hfi as (nl & k & Hcl & -> & -> & -> & Hone & ->).
+      pose proof Hf as Hfi. apply frag_obj_inv0 in Hfi. destruct Hfi as (nl & k & Hcl & -> & -> & Hone & ->).
       pose proof Hcl as Hcases. apply classify_cases in Hcases.
       cbn [frag] in Hf. rewrite Hcl in Hf. change (frag_kind cls D k items props req ap oneo = true) in Hf.
       cbn [no_nullable_enum union_of] in Hne. rewrite Hcl in Hne.
-      cbn [shape] in Hs. rewrite Hcl in Hs.
+      cbn [shape union_of] in Hs. rewrite Hcl in Hs.
       destruct Hcases as [(l & tt & -> & -> & Hsp & Hkt)
                          |(-> & -> & -> & -> & -> & -> & -> & -> & -> & -> & -> & -> & -> & Hrk)].
       + (* typed node *)
@@ -699,6 +714,14 @@ Section ExactMain.
           -- unfold ext_branch_x. cbn [sch_enum sch_props sch_required sch_additional_props xbranch is_closed].
              unfold raws. rewrite Hraw. rewrite (proj2 (mem_ustr_In v names) Hvin).
              unfold mem_ustr. cbn [existsb]. rewrite ustr_eqb_refl. reflexivity.
+    - intros ty fmt enum cst nv sv ik items ai mni mxi uq props req ap mnp mxp allo bs no ref dflt title HO Hf Hne t Hs ft.
+      destruct (frag_classify cls D _ _ _ _ _ _ _ _ _ _ _ _ _ _ _ _ _ _ _ _ _ _ _ _ Hf) as (x & Hcl).
+      rewrite (any_frag cls D _ _ _ _ _ _ _ _ _ _ _ _ _ _ _ _ _ _ _ _ _ _ _ x Hcl) in Hf. rewrite (any_nne _ _ _ _ _ _ _ _ _ _ _ _ _ _ _ _ _ _ _ _ _ _ _ x Hcl) in Hne.
+      cbn [shape] in Hs. rewrite Hcl in Hs.
+      assert (Hs' : shape cls D T (SObj ty fmt enum cst nv sv ik items ai mni mxi uq props req ap mnp mxp allo None (Some bs) no ref dflt title) t).
+      { cbn [shape]. rewrite (any_classify _ _ _ _ _ _ _ _ _ _ _ _ _ _ _ _ _ _ _ _ _ _ _ x Hcl). exact Hs. }
+      exact (HO Hf Hne t Hs' ft).
+    - intros ty fmt enum cst nv sv ik items ai mni mxi uq props req ap mnp mxp allo abs obs no ref dflt title Hf. rewrite both_frag in Hf. discriminate Hf.
   Qed.
 
   Lemma Es_newtype s ft t n dv i :
@@ -708,7 +731,8 @@ Section ExactMain.
       [reflexivity|].
     intros Hd Hi. cbn [Es] in *. destruct ref as [r|].
     - eapply refx_newtype; eassumption.
-    - destruct oneo as [bs|].
+    - destruct anyo as [abs|], oneo as [bs|]; try reflexivity.
+      + cbn [union_x]. rewrite Hd. cbn [wrapper_of]. exact Hi.
       + cbn [union_x]. rewrite Hd. cbn [wrapper_of]. exact Hi.
       + rewrite (gp_newtype _ _ _ _ _ _ _ _ _ _ _ _ _ _ _ _ _ Hd). exact Hi.
   Qed.
